@@ -169,7 +169,43 @@ Theorem C04_wrap_total_refuted :
 Proof. exact wrap_total_refuted. Qed.
 Print Assumptions C04_wrap_total_refuted.
 
-(* every index / field / call / assertion / unary / variable / basic literal node has a rigid type … *)
+(* regression, about parseBinaryExpr before commit 6b5553c:  nums := [1] ; a:[][]any ; a = [[1]] + [nums] *)
+Theorem C04_concat_inner_fixed_before_fix_refuted :
+  exists lt rt target, validate_binary OpPlus lt rt = true /\ has_empty lt = false /\ has_empty rt = false /\
+    accepts target (binary_node_type_pre_6b5553c OpPlus lt rt) = true /\ accepts target rt = false.
+Proof. exact concat_inner_fixed_before_fix_refuted. Qed.
+Print Assumptions C04_concat_inner_fixed_before_fix_refuted.
+
+(* … and on the current tree: the node carries the variable's flag, the program is a type error *)
+Theorem C04_concat_inner_fixed_now :
+  binary_node_type OpPlus (TArr false (TArr false TNum)) (TArr false (TArr true TNum)) = TArr false (TArr true TNum) /\
+  check (CAssign (SArr (SArr SAny))) (EBin OpPlus (EArr [EArr [ELitNum]]) (EArr [EVar (SArr SNum)])) = Reject /\
+  check (CAssign (SArr SAny)) (EBin OpPlus (EArr [EArr [ELitNum]]) (EArr [EVar (SArr SNum)])) = Reject /\
+  check (CAssign (SArr (SArr SNum))) (EBin OpPlus (EArr [EArr [ELitNum]]) (EArr [EVar (SArr SNum)])) =
+    Accept (TArr true (TArr false TNum)) (TArr false (TArr true TNum)).
+Proof. exact concat_inner_fixed_now. Qed.
+Print Assumptions C04_concat_inner_fixed_now.
+
+(* loop variables: typed with the element type for exactly the iterable operand types … *)
+Theorem C04_range_var_spec : forall t,
+  spec_ty t = true ->
+  match range_elem_s (erase t) with
+  | Some s => exists vt, range_var_type t = Some (Some vt) /\ erase vt = s /\ spec_ty vt = true
+  | None => range_var_type t = None
+  end.
+Proof. exact range_var_spec. Qed.
+Print Assumptions C04_range_var_spec.
+
+(* … and as a VARIABLE: assignable to the identical type or any only *)
+Theorem C04_range_var_is_variable : forall t vt,
+  pure_ty t = true -> range_var_type t = Some (Some vt) ->
+  (rigid vt = true /\ has_empty vt = false) /\
+  (forall T, spec_ty T = true -> is_array_name vt || is_map_name vt = true ->
+             (accepts T vt = true <-> Assignable KVar (erase T) (erase vt))).
+Proof. exact range_var_is_variable. Qed.
+Print Assumptions C04_range_var_is_variable.
+
+(* every index / field / call / assertion / unary / variable / loop-variable / basic literal node has a rigid type … *)
 Theorem C04_tc_leaf_rigid : forall e t err,
   annot_closed e = true -> tc e = ONode (NLeaf t) err -> rigid t = true /\ has_empty t = false.
 Proof. exact tc_leaf_rigid. Qed.
@@ -255,4 +291,12 @@ Example C04_ex_targets :
   target_chain (TArr true (TMap false TString)) [KIdx TNum; KDot; KIdx TNum] = Some None /\
   check (CAssignTo (SArr (SMap SString)) [TIdx ELitNum; TDot; TIdx ELitNum]) ELitStr = Reject /\
   check (CAssignTo (SArr (SMap SString)) [TIdx ELitNum; TDot]) ELitStr = Accept TString TString.
+Proof. vm_compute. repeat split; reflexivity. Qed.
+
+(* loop variable over rows:[][]num is a variable of type []num: [row] is not assignable to []any *)
+Example C04_ex_loop_variable :
+  range_var_type (TArr true (TArr false TNum)) = Some (Some (TArr true TNum)) /\
+  check (CAssign (SArr SAny)) (EArr [ELoopVar (EVar (SArr (SArr SNum)))]) = Reject /\
+  check (CAssign (SArr SAny)) (ELoopVar (EVar (SArr (SArr SNum)))) = Reject /\
+  check CDecl (EArr [ELoopVar (EVar (SArr (SArr SNum))); EArr [ELitStr]]) = Accept (TArr true TAny) (TArr false TAny).
 Proof. vm_compute. repeat split; reflexivity. Qed.
